@@ -77,3 +77,8 @@ def generate(rng, tier):
 
 def nontrivial(case):
     return case.count("same") >= 2
+
+
+def shrink(exe, case, impl, model, msg):
+    import vlib
+    return vlib.shrink_history(exe, ENGINE, case, "regex")
